@@ -148,7 +148,7 @@ def rename_population(tier, seed):
                 if rng.random() < 0.3:   # bindings named like the (renamed) nonterminals
                     pool = names + pool
                 rng.shuffle(pool)
-                x["bind_names"] = pool
+                x["bind_names"] = list(dict.fromkeys(pool))   # injective: no name twice
                 if rng.random() < 0.5:
                     x["grammar_param"] = rng.choice([p for p in PARAM_POOL if p not in pool[:12] and p not in names])
             out.append(x)
